@@ -7,6 +7,7 @@ truncation included.  Consequence (finding D8): the laws hold for every result f
 and fail before; the theorems carry the hypothesis, the failure is a theorem too.
 -/
 import Bermuda.Model.DateUtils
+import Bermuda.Model.DateUtilsExt
 import Bermuda.Spec.C12
 import Bermuda.Lemmas.DateUtils
 namespace Bermuda.Properties.C12
@@ -349,5 +350,48 @@ example : (Date.mk 2020 2 29).valid = true ∧ (Date.mk 2020 2 29).isMonthEnd = 
 /-- a mid-month date moved across a February: the month index moves by exactly 1, the day scales -/
 example : addMonths ⟨2021, 1, 15⟩ ((1 : Int) : Rat) = ⟨2021, 2, 14⟩ ∧ (0 : Int) ≤ monthToId ⟨2021, 1, 15⟩ + 1 := by
   decide +kernel
+
+/-! ### 7. the `date.max` sentinel (date_utils.py:36-40, 58-59): `calculateDevLagExt`, `addMonthsExt` -/
+
+/-- below `date.max` the extended function is the finite one behind the unit dispatch -/
+theorem calculateDevLagExt_fin (pe ev : Date) (u : String) (h : ev ≠ Date.max) :
+    calculateDevLagExt pe ev u = (LagUnit.parse? u).map fun un => LagExt.fin (calculateDevLag pe ev un) := by
+  unfold calculateDevLagExt
+  rw [if_neg (fun hh => h (eq_of_beq hh))]
+  cases LagUnit.parse? u <;> rfl
+
+/-- at `date.max` EVERY unit string is answered (the short-circuit precedes the unit dispatch):
+`timedelta.max` for the spelling "timedelta" in any case, `inf` for anything else -/
+theorem calculateDevLagExt_max (pe : Date) (u : String) :
+    calculateDevLagExt pe Date.max u =
+      if u.toList.map Char.toLower == "timedelta".toList then some .tdMax else some .inf := by
+  unfold calculateDevLagExt
+  rw [if_pos (beq_self_eq_true _)]
+
+/-- an infinite delta lands on `date.max` from every start date -/
+theorem addMonthsExt_inf (d : Date) : addMonthsExt d .inf = some Date.max := rfl
+
+/-- a finite delta is `addMonths` -/
+theorem addMonthsExt_fin (d : Date) (q : Rat) : addMonthsExt d (.fin q) = some (addMonths d q) := rfl
+
+/-- the inverse law extends to the sentinel: for every period end and every unit that is not spelled
+"timedelta", adding `calculate_dev_lag(p, date.max, unit)` months to `p` returns `date.max` -/
+theorem addMonthsExt_devLagExt_max (p : Date) (u : String)
+    (h : u.toList.map Char.toLower ≠ "timedelta".toList) :
+    (calculateDevLagExt p Date.max u).bind (addMonthsExt p) = some Date.max := by
+  rw [calculateDevLagExt_max, if_neg (fun hh => h (eq_of_beq hh))]
+  rfl
+
+/-- Spec bridge for the sentinel stream of the driver -/
+theorem spec_inverse_max (p : Date) (u : String) (h : u.toList.map Char.toLower ≠ "timedelta".toList) :
+    ((calculateDevLagExt p Date.max u).bind (addMonthsExt p)).map (Spec.inverseOk Date.max) = some true := by
+  rw [addMonthsExt_devLagExt_max p u h]
+  rfl
+
+/-- the month spellings of the harness are not "timedelta": the hypothesis above is satisfiable -/
+example : ("months".toList.map Char.toLower ≠ "timedelta".toList) ∧
+    calculateDevLagExt ⟨2020, 1, 31⟩ Date.max "bogus" = some .inf ∧
+    calculateDevLagExt ⟨2020, 1, 31⟩ Date.max "TimeDelta" = some .tdMax ∧
+    calculateDevLagExt ⟨2020, 1, 31⟩ ⟨2020, 3, 31⟩ "bogus" = none := by decide +kernel
 
 end Bermuda.Properties.C12
